@@ -16,6 +16,9 @@ tier = tier.replace("_gen", "")
 cases = fixrun.universe(tier, 0, 0, 0, full=True)
 if gen_only:
     cases = [c for c in cases if "gen" in c]
+if os.environ.get("SWEEP_MINUS_QUICK"):
+    q = {fixrun.case_name(c) for c in fixrun.universe("quick", 0, 0, 0, full=True)}
+    cases = [c for c in cases if fixrun.case_name(c) not in q]
 if os.environ.get("SWEEP_FILES"):
     ff = os.environ["SWEEP_FILES"].split(",")
     cases = [c for c in cases if ("gen" in c and "gen" in ff) or any(x in c.get("file", "") for x in ff if x != "gen")]
